@@ -19,6 +19,7 @@ Record cobs := {
   b_err : bool; b_out : N; b_table : table; b_frame : bool;
   b_calls : list bytes;         (* the byte strings the signer was called with, in order *)
   b_time_ok : bool;
+  b_pred_err : bool;            (* the predicate was invoked during the call and returned an error *)
   b_final : option bytes;       (* the value under the format's name re-read after later Process calls on other events (same
                                    and other goroutines) *)
   b_later : N }.                (* number of later Process calls after which it was first seen changed; 0: never *)           (* Go's time parser reads the stored document's time member back as the event's instant
@@ -29,7 +30,10 @@ Record kcase := {
 
 Inductive ccase :=
 | CCe (id : N) (c : kcase)
-| CFresh (id : N) (ids : list bytes).      (* all fresh ids the run observed *)
+| CFresh (id : N) (ids : list bytes)       (* all fresh ids the sequential part of the run observed *)
+| CConc (id : N) (events : N) (dups : list bytes) (panics : N).
+     (* one shared FormatterFilter used by several goroutines at once on payloads without ID(): number of events, the ids
+        that were handed out more than once (computed by the harness), Process calls that panicked *)
 
 Inductive kind :=
 | KErr | KFwd
@@ -42,6 +46,8 @@ Inductive kind :=
 | KSer          (* observation-only: serialized does not decode to the signer's input, serialized_hmac is not the signer's
                    result on it, or an event that must not be signed carries them *)
 | KIndent       (* observation-only: the text format is not indented / the json format is not one line *)
+| KErrStored    (* observation-only: Process returned an error that is not the predicate's (invalid configuration, empty id,
+                   unencodable data, failed signing), yet the event's format table is not exactly what it was before *)
 | KStoredMutated (* observation-only: the stored document changed after Process had returned; step = later Process calls it took *)
 | KFresh        (* observation-only: a fresh id is empty or was used twice *)
 | KModel.
@@ -167,6 +173,9 @@ Definition run_ce (c : kcase) : list kind :=
   (if list_beqb calls (b_calls o) then [] else [KSignIn]) ++
   (* observation-only: whenever the node reports success, what is stored must be the document the property describes *)
   (if negb (b_err o) then doc_checks k c (b_calls o) (b_time_ok o) (tget key (b_table o)) else []) ++
+  (* observation-only: an error other than the predicate's leaves the format table exactly as it was — in particular an event
+     whose signing failed does not carry the unsigned document *)
+  (if b_err o && negb (b_pred_err o) then (if table_eqb (k_pre c) (b_table o) then [] else [KErrStored]) else []) ++
   (* observation-only: the stored document is still the same when re-read after later Process calls on other events; if it
      is not, the oracle is run again on what is there now *)
   (if obeqb (tget key (b_table o)) (b_final o) then []
@@ -176,5 +185,7 @@ Definition run_case (c : ccase) : list (N * (N * N * kind)) :=
   match c with
   | CCe id k => map (fun x => (id, (match x with KStoredMutated => b_later (k_obs k) | _ => 0 end, opkind k, x))) (run_ce k)
   | CFresh id ids => if forallb nonempty ids && nodupb ids then [] else [(id, (0, 4, KFresh))]
+  | CConc id n dups panics =>
+      match dups with [] => if panics =? 0 then [] else [(id, (0, 5, KFresh))] | _ => [(id, (0, 5, KFresh))] end
   end.
 Definition mismatches (cs : list ccase) : list (N * (N * N * kind)) := flat_map run_case cs.
